@@ -16,3 +16,5 @@ def run(ctx):
         small4.run_sds(ctx, found=bool(ctx.violations))
         from .. import rdwrtail
         rdwrtail.run_c11(ctx)        # read/write sessions on RE-OPENED files (content behind the audio): every write entry point across the old end, update, image
+        from .. import blocksnap     # round 9: block codec x SFC_UPDATE_HEADER_NOW between partial blocks, on block edges (vlib/blocksnap.py)
+        blocksnap.run(ctx, "C11")
